@@ -25,6 +25,8 @@ func propC02(r *Report, tier string) {
 	ruleHeapRestoredBeforePeek(r, "K5-heap-restored-before-peek")
 	ruleOptimisedDisjunctionKeepsMin(r, "K12-optimised-disjunction-keeps-min")
 	ruleSearcherCountIsAnEstimate(r, "K7-searcher-count-is-an-estimate")
+	ruleCarryLoopCoversIndexZero(r, "K8-carry-loop-covers-index-zero", func(rel string) bool { return rel == "index/scorch" || rel == "search/searcher" }, 2)
+	ruleFilteringWrappersFilterEveryResult(r, "K5-filter-wrapper-filters-every-result")
 	ruleFieldwiseEqualityComplete(r, "K9b-fieldwise-equality-complete", []string{"search", "search/searcher", "search/highlight", "search/collector", "index/scorch", "index/upsidedown", "document"}, map[string]string{})
 	r.Floor("K8-exclusion-at-read-sites", 6)
 	r.Floor("K5-per-segment-state-reset", 3)
